@@ -74,6 +74,11 @@ def make_pool():
     S = raw.reshape(-1).view(">f8")
     pool[11] = ((B[0:15], B[15:30]), {})
     pool[12] = ((S[0:15], S[15:30]), {})
+    # 15 / 16: square arrays and their transposes (views of the same memory)
+    Q = (rs.rand(4, 4) * 0.5 + 0.25)
+    R = (rs.rand(4, 4) * 3 + 1)
+    pool[15] = ((Q, R), {})
+    pool[16] = ((Q.T, R.T), {})
     pool[13] = ((Y[0:15], Y[15:30]), {})
     pool[14] = ((Y[0:15], Y[15:30]), {})
     return pool
@@ -83,6 +88,9 @@ def grid_args(p, args):
     """arguments of downsample_grid for pool member p: members 9 and 10 are
     the pair whose non-array arguments have the same concatenated str()"""
     x, y = args[0], args[1]
+    if p in (15, 16):
+        # two-dimensional input is handed over as it is
+        return (x, y, 5, False, False)
     a = np.ravel(x) if x.ndim > 1 else x
     b = np.ravel(y) if y.ndim > 1 else y
     if p == 9:
@@ -562,6 +570,15 @@ def main(tier, seed, replay=None):
                res_c)
     scheds_b += sorted({tuple((s["f"], s["p"]) for s in h)
                         for h in res_c.iter_tagged("H", consume=True)}
+                       - set(scheds) - set(scheds_b))
+    res_d = tlc.run("MC_Cache", HIST + BASE.format(
+        m=2, kt="TRUE", al="FALSE", d=3).replace(
+            "Funcs <- MCFuncs", "Funcs <- HFuncs").replace(
+            "Pool <- MCPool", "Pool <- HPool4"), workers=8, timeout=3000)
+    ev.add_tlc("MC_Cache schedule enumeration depth 3 (transposed pair)",
+               res_d)
+    scheds_b += sorted({tuple((s["f"], s["p"]) for s in h)
+                        for h in res_d.iter_tagged("H", consume=True)}
                        - set(scheds) - set(scheds_b))
     if tier != "quick":
         res4 = enum(4)
